@@ -336,20 +336,20 @@ func minimise(t *testing.T, a *Args, w WorldFunc, first Result, key string, budg
 
 // ReplayFile is the on-disk replay format.
 type ReplayFile struct {
-	Property     string           `json:"property"`
-	World        string           `json:"world"`
-	Tier         string           `json:"tier"`
-	Seed         uint64           `json:"seed"`
-	Index        int              `json:"index"`
-	Knobs        map[string]int   `json:"knobs"`
+	Property     string            `json:"property"`
+	World        string            `json:"world"`
+	Tier         string            `json:"tier"`
+	Seed         uint64            `json:"seed"`
+	Index        int               `json:"index"`
+	Knobs        map[string]int    `json:"knobs"`
 	Extra        map[string]string `json:"extra"`
-	Tape         map[string][]int `json:"tape"`
-	ViolationKey string           `json:"violation_key"`
-	Detail       string           `json:"detail"`
-	EventHash    string           `json:"event_hash"`
-	Trace        []string         `json:"trace"`
-	RepoHead     string           `json:"repo_head"`
-	Go           string           `json:"go"`
+	Tape         map[string][]int  `json:"tape"`
+	ViolationKey string            `json:"violation_key"`
+	Detail       string            `json:"detail"`
+	EventHash    string            `json:"event_hash"`
+	Trace        []string          `json:"trace"`
+	RepoHead     string            `json:"repo_head"`
+	Go           string            `json:"go"`
 }
 
 // Main is called from each world's TestSim.
